@@ -76,9 +76,6 @@ func (o *OracleC09) OnOut(n *Node, st *Step, out *Out) {
 	if out.Kind != OProcessBlock || o.s.sc.Sub != 0 {
 		return
 	}
-	if out.Hdr.Idx == 1 {
-		return // O1: zero timers at block index 1, see C08
-	}
 	if int(n.d.ViewNumber) > o.silent {
 		// Known finding V1: a primary that enters its view while a recovery message is being
 		// processed gets the backups' timeout instead of proposing at once (dbft.go
